@@ -25,7 +25,7 @@ ASSUMPTIONS = [
     "EML exporter: qualified attributes, prefixes and namespace maps are not part of its contract (it predates them); the "
     "boilerplate attributes it adds to an eml root are ignored",
 ]
-REQUIRED = ["vocabulary_attribute_cases", "vocabulary_content_cases", "exported_again_after_in_place_edits", "fragment_exports", "general_exports", "eml_exports", "expat_accepts", "libxml2_accepts", "reimports", "special:<:content", "special:&:content",
+REQUIRED = ["dense_special_cases", "prefix_pair_cases", "vocabulary_attribute_cases", "vocabulary_content_cases", "exported_again_after_in_place_edits", "fragment_exports", "general_exports", "eml_exports", "expat_accepts", "libxml2_accepts", "reimports", "special:<:content", "special:&:content",
             "special:\":attribute", "special:<:attribute", "special:&:attribute", "special:&:extras", "special:<:tail", "special:&:uri",
             "trees_with_nested_declarations"]
 EXHAUSTIVE = {"quick": False, "thorough": False}
@@ -257,7 +257,7 @@ def vocabulary_content_sweep(ctx):
     """Every element name with the contents the domain is full of (identifiers, numbers in every spelling, entity-looking text)."""
     from vlib import domain
     from vlib.emlkit import mrule
-    words = [w for w in domain.CONTENT_WORDS if not any(x in w for x in ("&amp;", "&lt;", "&gt;", "<para>"))]
+    words = [w for w in domain.CONTENT_WORDS if not any(x in w for x in ("&amp;", "&lt;", "&gt;", "<para>", "\r"))]   # (carriage returns are outside the quantifier)
     for i, e in enumerate(mrule.node_names()):
         for w in words[i % 3::3]:
             n = Node(e, content=w)
@@ -266,9 +266,63 @@ def vocabulary_content_sweep(ctx):
             emlkit.discard(n)
 
 
+def dense_and_prefix_sweep(ctx):
+    """Values holding many special characters (a code listing, a table, a long query URL: 33, 64, 100, 1000, 5000 of them in one value), in
+    every position a value can take; and every ordered pair of prefixes out of a list in which some are leading or trailing parts of others
+    (dcterms/dc, xsi/xs, gmlcov/gml), declared on one element and both used below it."""
+    for count in (31, 32, 33, 34, 64, 65, 100, 1000, 5000):
+        for unit in ("&", "<", ">", "\"", "'", "<&>\"'", "a<b && c>d \"q\" "):
+            v = (unit * (count // len(unit) + 1))[:max(count, len(unit))] if len(unit) == 1 else unit * (count // 3 + 1)
+            for where in ("content", "tail", "attribute", "extras", "uri"):
+                root = Node("methods")
+                root.add_namespace("p", "urn:p")
+                kid = Node("literalLayout", content="x")
+                root.add_child(kid)
+                if where == "content":
+                    kid.content = v
+                elif where == "tail":
+                    kid.tail = v
+                elif where == "attribute":
+                    kid.add_attribute("system", v)
+                elif where == "extras":
+                    kid.add_extras("p:note", v)
+                else:
+                    # (namespace names are plain URIs: of the special characters only the ampersand can stand in one)
+                    u = "".join(ch for ch in v if ch not in "<>\"' ")
+                    if "&" not in u:
+                        continue
+                    kid.add_namespace("q", "http://example.org/q?" + u)
+                ctx.case(judge_general, ctx, root)
+                if where in ("content", "attribute"):
+                    ctx.case(judge_eml, ctx, root)
+                ctx.count("dense_special_cases")
+                emlkit.discard(root)
+    prefixes = ["dcterms", "dc", "xsi", "xs", "gmlcov", "gml", "eml", "em", "ml", "a", "ab", "b", "stmml"]
+    for p1 in prefixes:
+        for p2 in prefixes:
+            if p1 == p2:
+                continue
+            for on_child in (False, True):
+                root = Node("additionalMetadata")
+                holder = Node("metadata")
+                root.add_child(holder)
+                target = holder if on_child else root
+                target.add_namespace(p1, "urn:ns:" + p1)
+                target.add_namespace(p2, "urn:ns:" + p2)
+                for px in (p1, p2):
+                    k = Node("description", content=px)
+                    k.prefix = px
+                    k.add_extras(f"{px}:ref", px)
+                    holder.add_child(k)
+                ctx.case(judge_general, ctx, root)
+                ctx.count("prefix_pair_cases")
+                emlkit.discard(root)
+
+
 def run(ctx, params):
     rng = ctx.rng
     if params.get("salt", 0) == 0:
+        ctx.case(dense_and_prefix_sweep, ctx, seconds=600.0)
         ctx.case(vocabulary_attribute_sweep, ctx, seconds=600.0)
         ctx.case(vocabulary_content_sweep, ctx, seconds=600.0)
     for i in range(params["trees"]):
